@@ -389,4 +389,43 @@ example : accepts .cancel [.lc (.reqSent 1 10), .closeRequested, .acceptStopped,
 example : accepts .cancel [.lc (.reqSent 1 10), .lc (.start 10), .lc (.done 10),
     .lc (.respDelivered 10), .connClosed 1] = false := by decide
 
+/-! ### The HTTPS arm of the accept loop
+
+`stepTls` / `runTls` (DropshotModel/Shutdown.lean): the same protocol, except that the
+listener is dropped when the accept loop ends, not when the server task has finished. -/
+
+/-- **Transfer.**  An accepted HTTPS trace with its connect probes erased is an accepted
+trace of the plain protocol ending in the same state - so `close_waits_all`,
+`close_waits_detached`, `close_waits`, `drain_waits`, `waiters_agree`, `close_order`, …
+hold for servers started with TLS as well (none of them mentions a connect probe). -/
+theorem tls_transfer (tr : List Event) (h : runTls m init tr = some s) :
+    run m init (tr.filter fun e => !isConnectEvent e) = some s :=
+  runTls_erase tr init s h
+
+/-- For instance: over HTTPS too, every waiter is released with the same result. -/
+theorem tls_waiters_agree {x y : Bool} (tr : List Event) (h : runTls m init tr = some s)
+    (hi : Event.waiterReleased i x ∈ tr) (hj : Event.waiterReleased j y ∈ tr) : x = y := by
+  have h' := tls_transfer tr h
+  have mi : Event.waiterReleased i x ∈ tr.filter fun e => !isConnectEvent e :=
+    List.mem_filter.2 ⟨hi, by simp [isConnectEvent]⟩
+  have mj : Event.waiterReleased j y ∈ tr.filter fun e => !isConnectEvent e :=
+    List.mem_filter.2 ⟨hj, by simp [isConnectEvent]⟩
+  exact (waiters_agree h' mi mj).1
+
+/-- Over HTTPS the port closes earlier: a connect is refused only once the accept loop has
+stopped, and from then on none is accepted (in particular none after shutdown finished). -/
+theorem tls_port (s s' : State) :
+    (stepTls m s .connectRefused = some s' → s.phase ≠ .serving ∧ s.phase ≠ .closeRequested) ∧
+    (s.phase ≠ .serving ∧ s.phase ≠ .closeRequested → stepTls m s .connectAccepted = none) :=
+  ⟨tls_refused_needs_accept_stopped, tls_no_accept_after_stop⟩
+
+/-- Non-vacuity: an HTTPS shutdown with a request in flight; the probe made while the
+handler is still running is refused (it would be accepted by the plain arm). -/
+example :
+    let tr : List Event :=
+      [.lc (.reqSent 1 10), .lc (.start 10), .closeRequested, .acceptStopped, .connectRefused,
+       .lc (.tick 10), .lc (.done 10), .lc (.respDelivered 10), .connClosed 1, .drained,
+       .joinResolved true, .waiterReleased 0 true, .connectRefused]
+    acceptsSettledTls .detached tr = true ∧ accepts .detached tr = false := by decide
+
 end Dropshot.C17
